@@ -98,6 +98,8 @@ QUERY_FUNCS = {
     "hash": lambda f, p: f.hash(p, "md5"),
     "getsyspath": lambda f, p: f.getsyspath(p),
     "hassyspath": lambda f, p: f.hassyspath(p),
+    "islink": lambda f, p: f.islink(p),
+    "getinfo-link": lambda f, p: repr(sorted((f.getinfo(p, namespaces=["link"]).raw.get("link") or {}).items())),
     # walkers report paths built on the spelling they were given: compared up to normalisation
     "walk.files": lambda f, p: sorted(norm(x) for x in f.walk.files(p)),
     "walk.dirs": lambda f, p: sorted(norm(x) for x in f.walk.dirs(p)),
@@ -237,6 +239,7 @@ def run(rep, tier, seed, deep=False):
                             break
         same_object_phase(rep, rng, KINDS + ["cachedir-os", "mount-nested", "multi2"], 8 if quick else 60, k)
         same_object_phase(rep, rng, ["cachedir-mem", "mount", "mount-nested"], 60 if quick else 400, k)
+        same_object_phase(rep, rng, ["os-links"], 10 if quick else 120, k)
         rep.sample({"clean": "a/b", "spellings": spellings(rng, "a/b", [("D", "a"), ("F", "a/b", b"")], 8)})
     finally:
         H.cleanup_scratch()
